@@ -376,6 +376,12 @@ fn judge(v: &Variable, s: &Type) -> Option<&'static str> {
     if !tag.matches(s) {
         return Some("tag-not-matching-static-type");
     }
+    // the tag is what run-time dispatch (match arms, if-set, ? T, host-call argument checks)
+    // believes: a value whose contents are outside its own tag is taken for one by
+    // `match v { x: <tag> => x }`, whose binder then has a static type its value is not in
+    if !belongs(v, &Ty::from_impl(&tag)) {
+        return Some("tag-does-not-describe-contents");
+    }
     None
 }
 
@@ -799,6 +805,42 @@ impl Ctx {
                 let ops: Vec<String> = lits.iter().map(|s| s.to_string()).collect();
                 let etext = e(&ops);
                 self.top_level(&etext, &format!("{origin}|top-level"));
+            }
+        }
+        // the same calls once more as one history: cells and iterators handed in persist from
+        // call to call, so a call meets what earlier calls (also failed ones) left in them
+        if cands.iter().flatten().any(|&ri| RECIPES[ri].stateful) {
+            let mut kept: std::collections::HashMap<(usize, usize), Variable> = std::collections::HashMap::new();
+            let porigin = format!("{origin}|persistent-values");
+            begin_case();
+            let mut history: Vec<Vec<&str>> = Vec::new();
+            for k in 0..total.min(cap) {
+                let mut kk = k;
+                let mut args = Vec::new();
+                let mut lits: Vec<&str> = Vec::new();
+                let mut ok = true;
+                for (slot, cnd) in cands.iter().enumerate() {
+                    let ri = cnd[kk % cnd.len()];
+                    kk /= cnd.len();
+                    if !kept.contains_key(&(slot, ri)) {
+                        match self.values.make(ri) {
+                            Some(v) => {
+                                kept.insert((slot, ri), v);
+                            }
+                            None => ok = false,
+                        }
+                    }
+                    if let Some(v) = kept.get(&(slot, ri)) {
+                        args.push(v.clone());
+                    }
+                    lits.push(RECIPES[ri].src);
+                }
+                if !ok {
+                    continue;
+                }
+                history.push(lits.clone());
+                let case = json!({"kind": "host_call_history", "program": text, "calls_so_far_with_persisting_stateful_values": history});
+                self.host_call(&f, args, &porigin, &case);
             }
         }
     }
